@@ -347,6 +347,15 @@ def C14(tier, seed):
                         f"every valid solution on <= {cfg['N']} node slots (forest shape, times, ids symbolic), coordinates "
                         f"and loaded measurements arbitrary reals, label array cells symbolic; save_tracks then "
                         f"load_tracks(solution=True) through an ideal directory", fallback_obligations=INT_OBL))
+    for name, cfg in ((":N=2:2x1x3", dict(N=2, shape=(2, 1, 3))),) + (
+            () if tier == "quick" else ((":N=3:3x1x3", dict(N=3, shape=(3, 1, 3))),)):
+        cfg = dict(cfg, op="geff_seg", select=False)
+        runs.append(Run("roundtrip:geff_with_segmentation" + name, roundtrip.geff_seg_harness, cfg, roundtrip.replay,
+                        ("roundtrip", "witness:last_node_not_convex"),
+                        "every valid solution with a label array of the stated shape (labels realised by solver forks; "
+                        "positions / areas = true centroids / pixel counts of the masks), full GEFF export with "
+                        "segmentation, import with the exported segmentation",
+                        fallback_obligations=("C14.reimport_accepted", "C14.same_segmentation")))
     return run_property("C14", tier, runs, explanation=R.EXPL, seed=seed, assumptions=EXPORT_ASSUME + [
         "IDEAL STORE between the two halves: geff.write followed by read_to_memory returns the node ids, edges and one "
         "value array per attribute of the written graph (absent attribute = missing); DataFrame.to_csv followed by "
@@ -359,9 +368,10 @@ def C14(tier, seed):
         "claimed: nodes, edges, times, positions, track ids after GEFF and CSV round trips of tracks without "
         "segmentation; internal format: additionally lineage ids, loaded measurements (area), segmentation cells and "
         "dtype, scale (symbolic voxel sizes) and the feature registry.  A registered custom node feature is followed through GEFF "
-        "(node_features = load) and through a display-name CSV.  NOT claimed: GEFF segmentation "
-        "round trips (position / mask consistency is needed for the importer's segmentation check), "
-        "subset exports, segmentation-derived features loaded through GEFF / CSV"],
+        "(node_features = load) and through a display-name CSV.  GEFF with segmentation: the label array is realised by "
+        "solver-guided forks (positions = true centroids of the masks), load_segmentation / read_dims are I/O stubs, "
+        "geff's has_seg_ids_at_coords a contract stub.  NOT claimed: subset exports, segmentation-derived features "
+        "loaded through CSV"],
         stubs=EXPORT_STUBS + ["geff read_to_memory / GeffMetadata.read -> ideal store", "pandas DataFrame -> _Frame model"])
 
 
